@@ -76,6 +76,7 @@ static int do_rand(unsigned seed) {
             std::mt19937 r(seed * 31 + t);
             tgs[t]->run_and_wait([&] {
                 go++; while (go.load() < T) std::this_thread::yield();
+                std::vector<std::unique_ptr<tbb::task_group_context>> inner;    // outlive the leaves bound beneath them (API contract)
                 std::vector<std::unique_ptr<tbb::task_group_context>> leaves;
                 std::function<void(int)> nest = [&](int d) {
                     for (int k = 0; k < 3; ++k) {
@@ -84,8 +85,8 @@ static int do_rand(unsigned seed) {
                             if (w) won = 1;
                         }
                         if (d + 1 < depth) {
-                            tbb::task_group_context c; tbb::task_group g(c);
-                            g.run_and_wait([&] { nest(d + 1); });     // wait() resets c afterwards; c dies here
+                            inner.emplace_back(new tbb::task_group_context); tbb::task_group g(*inner.back());
+                            g.run_and_wait([&] { nest(d + 1); });     // wait() resets the inner context afterwards; it stays alive
                         } else { leaves.emplace_back(new tbb::task_group_context); bind_here(*leaves.back()); }
                         for (unsigned s = 0; s < (r() % 200); ++s) std::this_thread::yield();
                     }
